@@ -25,7 +25,15 @@ HOOKS_REQUIRED = ["histories with model: plain additive model", "histories with 
                   "matings whose named parents are a proper subset of the matrix mated from", "mate calls", "select_taxa calls", "concat_taxa calls", "usl/lsl calls",
                   "fixed populations with ploidy*n not a power of two",
                   "transitions between ploidy*n a power of two and not a power of two",
-                  "generations at a reciprocal-rounding-critical size"]
+                  "generations at a reciprocal-rounding-critical size",
+                  "in-place remove_taxa / remove calls on a population object whose limits had been read",
+                  "in-place append_taxa / append / incorp_taxa / incorp calls on a population object whose limits had been read",
+                  "in-place reorder_taxa / sort_taxa / group_taxa calls on a population object whose limits had been read",
+                  "populations fixed at all loci reached by an in-place cull",
+                  "generations read from a copy()/deepcopy() of a population object",
+                  "generations read again from unchanged objects",
+                  "unphased matrix objects carried through an operation instead of being genotyped afresh",
+                  "second or later reads of one breeding value matrix object"]
 RULE = ("seeded closed breeding histories driven through the real classes: founders 1-40 taxa x 1-40 loci (random, skewed "
         "frequencies, inbred lines, singletons, complementary pair, already fixed), additive models with 1-3 traits and 1-3 "
         "fixed-effect rows, effects gaussian / with exact (signed) zeros / small integers / one-signed / all-zero column / 12 "
@@ -48,7 +56,17 @@ RULE = ("seeded closed breeding histories driven through the real classes: found
         "the carriers, then small mated generations; cross tables (and select_taxa index arrays, count vectors) are passed in every integer "
         "dtype int8...uint32/int64 that can hold their values, C-/F-ordered, strided or reversed views; 10 % of the mating "
         "histories are 'wide' (100-330 taxa x 100-330 loci, sizes 127/128/255/256/257/330) so that parent index * nvrnt "
-        "passes the 8- and 16-bit limits; distinct = digest of founders, effects and the executed operation list.")
+        "passes the 8- and 16-bit limits; family 'pool' (700 histories quick): a candidate pool of 2-24 founders (half of them "
+        "sets of homozygous lines) kept in ONE phased matrix object (and one unphased twin object) whose limits / frequencies "
+        "are read after every step: culled in place (remove_taxa / remove with index arrays of any integer dtype, negative "
+        "indices, list, int, slice, boolean mask; 45 % down to a single individual), enlarged in place by the progeny of its "
+        "members (append_taxa / append / incorp_taxa / incorp with objects or raw arrays, one or many positions), split into two "
+        "cohorts of which the first is read alone and then re-united in place with the second, reordered / sorted / grouped in "
+        "place, replaced by copy() / deepcopy(), read again unchanged, or replaced by fresh objects (mate, DH pool, select_taxa, "
+        "delete_taxa); in every family 50 % of the generations additionally compute gebv() once and consult that one breeding "
+        "value matrix object 2-4 times (unscale, select_taxa, tmax/tmin, copy, deepcopy, to_pandas, mat/scale/location, "
+        "delete_taxa, reorder_taxa / remove_taxa in place) - every read has to lie inside the limits; distinct = digest of "
+        "founders, effects and the executed operation list.")
 ASSUME = ["the genomic breeding value of an individual is intercept + sum_j genotype_j * u_a[j]; the intercept is whatever "
           "gebv() documents: beta[0] + sum(beta[1:])/q, the contrast x* = [1, 1/q, ..., 1/q] (every route is compared with it), and usl/lsl with unscale=True are compared with "
           "those values, usl/lsl with unscale=False with the values without intercept (gebv_numpy)",
@@ -64,7 +82,13 @@ ASSUME = ["the genomic breeding value of an individual is intercept + sum_j geno
           "same event again",
           "for DenseAdditiveDominanceLinearGenomicModel the limits and the bracketed values are those of the genomic *breeding* "
           "value gebv() (additive part); gegv*/predict* are used as routes only where they return that value",
-          "unmodelled: DenseLinearGenomicModel (same limit code, abstract in this tree), the library's selection protocols (selection is an index list chosen by the harness)"]
+          "the limits of a population object are those of the individuals it holds at the moment of the call, whatever was read from "
+          "the same object before (objects changed in place by remove/append/incorp/reorder, copies); in-place steps are closed "
+          "steps: a cull is a selection, added rows are progeny of members, re-united cohorts are the same individuals again",
+          "every way of reading the members' breeding values from the matrix gebv() returned (first or later read, subset, extremes, "
+          "copy, data frame) is a report of those breeding values and has to lie inside the limits; the unphased twin object is "
+          "judged only while it still holds the genotypes of the phased object",
+          "unmodelled: in-place operations along the variant axis (they change the model's loci), DenseLinearGenomicModel (same limit code, abstract in this tree), the library's selection protocols (selection is an index list chosen by the harness)"]
 TIMEOUT = {"quick": 900, "thorough": 3 * 3600}
 
 PROTOS = [("SelfCross", 1), ("TwoWayCross", 2), ("TwoWayDHCross", 2), ("ThreeWayCross", 3), ("ThreeWayDHCross", 3),
@@ -325,9 +349,13 @@ def reuse_reads(ctx, mon, model, pg, Z, gref, offset, ploidy, gr, gdev):
         if val.shape == want.shape and numpy.all(numpy.isfinite(val)):
             out.append(val)
             if not numpy.all(numpy.abs(val - want) <= tol) and "un" not in gdev:
-                gdev["un"] = ("gebv", label, "%s.%s" % (O.defining_class(bv, meth), meth),
-                              "first read of a breeding value matrix object" if i == 0 else
-                              "second or later read of the same breeding value matrix object")
+                # a first read names the method read through; a later read names the object (whose stored state the earlier
+                # reads may have changed) - whichever method happened to be the one that saw it
+                gdev["un"] = (("gebv", label, "%s.%s" % (O.defining_class(bv, meth), meth), "first read of a breeding value matrix object")
+                              if i == 0 else
+                              ("gebv", label, "%s (object state after earlier reads)" % type(bv).__mro__[1].__name__
+                               if type(bv).__name__ == "DenseGenomicEstimatedBreedingValueMatrix" else type(bv).__name__ + " (object state after earlier reads)",
+                               "second or later read of the same breeding value matrix object"))
                 ctx.sumnote("%s is not definition + constant (judged as reported)" % label)
         else:
             ctx.sumnote("%s unusable (shape / non-finite)" % label)
@@ -405,7 +433,7 @@ def read_generation(ctx, mon, model, has_unscale, genotyper, pg, t, op, opsite, 
                 gdev["un"] = (meth, label); ctx.sumnote("%s is not definition + constant (judged as reported)" % label)
         else:
             ctx.sumnote("%s unusable (shape / non-finite)" % label)
-    if gr is not None and gr.random() < (0.6 if n <= 20000 else 0.25):
+    if gr is not None and gr.random() < (0.5 if n <= 20000 else 0.25):
         got += reuse_reads(ctx, mon, model, pg, Z, gref, offset, ploidy, gr, gdev)
     if got:
         gun = numpy.concatenate(got, axis=0)
@@ -608,6 +636,198 @@ def do_subset(ctx, g, pg, gref, size):
             O.defining_class(pg, "select_taxa") + ".select_taxa")
 
 
+# ---------------------------------------------------------------- pool management in place (family 'pool')
+# The population object whose limits / frequencies were read is changed in place (or copied) and read again.  The unphased
+# matrix object of the population ("twin") goes through the same calls.
+POOL_KINDS = ["cull", "cull", "cull", "cull", "grow", "grow", "regroup", "regroup", "reorder", "copy", "reread", "mate", "subset",
+              "delete", "dhpool"]
+INPLACE_KINDS = ("cull", "grow", "regroup", "reorder")
+
+
+def drop_form(g, drop, n):
+    """The rows to remove as index array (any integer dtype / layout, any order, possibly negative), list, int, slice, mask."""
+    drop = numpy.sort(numpy.asarray(drop, dtype="int64"))
+    forms = ["array", "array", "negative indices", "list", "mask"]
+    if len(drop) == 1:
+        forms += ["int", "int"]
+    if len(drop) >= 1 and int(drop[-1] - drop[0]) == len(drop) - 1:
+        forms += ["slice", "slice", "slice"]
+    f = forms[int(g.integers(len(forms)))]
+    if f == "array":
+        a, dt, lay = index_array(g, drop if g.random() < 0.5 else g.permutation(drop))
+        return a, "index array %s" % dt
+    if f == "negative indices":
+        return drop - n, "index array of negative indices"
+    if f == "list":
+        return [int(x) for x in drop], "list"
+    if f == "mask":
+        mk = numpy.zeros(n, dtype=bool); mk[drop] = True
+        return mk, "boolean mask"
+    if f == "int":
+        return int(drop[0]), "int"
+    return slice(int(drop[0]), int(drop[-1]) + 1), "slice"
+
+
+def apply_inplace(ctx, pg, twin, fn, *args):
+    """fn(object, *values) on the phased object (exceptions propagate) and on its unphased twin (``args`` = pairs)."""
+    fn(pg, *[a[0] for a in args])
+    ug = twin.get("ug")
+    if ug is not None:
+        try:
+            if any(a[1] is None for a in args):
+                raise ValueError("no unphased counterpart of the values")
+            fn(ug, *[a[1] for a in args])
+        except Exception as e:
+            ctx.raised("operation on the unphased twin object", e); twin["ug"] = None
+
+
+def do_cull(ctx, g, pg, twin, gref):
+    """Selection by removing the others from the object itself."""
+    n = pg.ntaxa
+    size = 1 if g.random() < 0.45 else pick_size(g, 2, cap=n - 1)
+    rule = ["best", "worst", "random", "head", "tail"][int(g.integers(5))]
+    if rule == "head":
+        keep = numpy.arange(size)
+    elif rule == "tail":
+        keep = numpy.arange(n - size, n)
+    else:
+        keep = select(g, gref, size, rule)
+    drop = numpy.setdiff1d(numpy.arange(n), keep)
+    obj, form = drop_form(g, drop, n)
+    call = ["remove_taxa", "remove_taxa", "remove(axis=taxa_axis)", "remove(axis=-2)"][int(g.integers(4))]
+
+    def fn(x):
+        if call == "remove_taxa":
+            x.remove_taxa(obj)
+        elif call == "remove(axis=-2)":
+            x.remove(obj, axis=-2)
+        else:
+            x.remove(obj, axis=x.taxa_axis)
+    site = O.defining_class(pg, "remove_taxa") + ".remove_taxa"
+    apply_inplace(ctx, pg, twin, fn)
+    ctx.hook("in-place remove_taxa / remove calls on a population object whose limits had been read")
+    ctx.sumnote("in-place removal: argument form " + form)
+    return pg, {"op": "remove_taxa in place", "call": call, "rule": rule, "kept": numpy.sort(keep).tolist(), "argument_form": form}, site
+
+
+def attach_call(g, n, k):
+    """One of the in-place ways of adding ``k`` rows to an object of ``n`` rows: (description, fn(object, values), site name)."""
+    call = ["append_taxa", "append_taxa", "append_taxa(ndarray, taxa=, taxa_grp=)", "append(axis=-2)", "incorp_taxa(int)",
+            "incorp_taxa(positions)", "incorp(axis=-2, positions)", "incorp_taxa(int, ndarray, taxa=, taxa_grp=)"][int(g.integers(8))]
+    pos = None
+    if "int" in call:
+        pos = int(g.choice([0, n, int(g.integers(0, n + 1))]))
+    elif "positions" in call:
+        pos = g.integers(0, n + 1, k)
+        pos = numpy.sort(pos) if g.random() < 0.6 else pos
+        # (numpy.insert adds offsets to a position array in place: signed, at least 32 bit)
+        pos = numpy.asarray(pos, dtype=str(g.choice(["int64", "int32"]))) if g.random() < 0.6 else [int(x) for x in pos]
+
+    def fn(x, v):
+        if call == "append_taxa":
+            x.append_taxa(v)
+        elif call.startswith("append_taxa(ndarray"):
+            x.append_taxa(v.mat, taxa=v.taxa, taxa_grp=v.taxa_grp)
+        elif call == "append(axis=-2)":
+            x.append(v, axis=-2)
+        elif call.startswith("incorp_taxa(int, ndarray"):
+            x.incorp_taxa(pos, v.mat, taxa=v.taxa, taxa_grp=v.taxa_grp)
+        elif call.startswith("incorp_taxa"):
+            x.incorp_taxa(pos, v)
+        else:
+            x.incorp(pos, v, axis=-2)
+    name = "append_taxa" if call.startswith("append") else "incorp_taxa"
+    return {"call": call, "positions": (numpy.asarray(pos).tolist() if pos is not None else None)}, fn, name
+
+
+def do_grow(ctx, g, protos, genotyper, mon, model, pg, twin, gref):
+    """Overlapping generations kept in one object: the progeny of some members are added to the object itself."""
+    n = pg.ntaxa
+    prog, op1, site1 = do_mate(ctx, g, protos, pg, gref, pick_size(g, cap=40))
+    up = None
+    if twin.get("ug") is not None:
+        try:
+            up = genotyper.genotype(prog)
+        except Exception as e:
+            ctx.raised("DenseUnphasedGenotyping.genotype", e)
+    desc, fn, name = attach_call(g, n, prog.ntaxa)
+    op = dict({"op": name + " in place (progeny added to their parents' population object)", "mating": op1}, **desc)
+    par = numpy.unique(numpy.asarray(op1["xconfig"], dtype="int64"))
+    if len(par) < n:
+        side_check_parents(ctx, mon, model, pg.select_taxa(par), prog, site1, op)
+        ctx.hook("select_taxa calls"); ctx.hook("matings whose named parents are a proper subset of the matrix mated from")
+    pc = numpy.asarray(prog.mat).astype(numpy.int64).sum((0, 1))   # which step brought an allele back, if any?
+    inprog = bool(numpy.any(mon.lost0 & (pc != 0)) or numpy.any(mon.lost1 & (pc != prog.ntaxa * 2)))
+    site = site1 if inprog else O.defining_class(pg, name) + "." + name
+    apply_inplace(ctx, pg, twin, fn, (prog, up))
+    ctx.hook("in-place append_taxa / append / incorp_taxa / incorp calls on a population object whose limits had been read")
+    ctx.sumnote("in-place addition: " + desc["call"])
+    return pg, op, site, inprog
+
+
+def do_regroup(ctx, g, genotyper, model, pg, twin, gref):
+    """The population is split into two cohort objects; the first one is looked at on its own (limits, frequencies - a use of
+    the object, not a generation of the history), then the second cohort is added to it in place: the same individuals as
+    before, in another object with a past."""
+    n = pg.ntaxa
+    a_ix = select(g, gref, int(g.integers(1, n)), ["best", "worst", "random"][int(g.integers(3))])
+    b_ix = numpy.setdiff1d(numpy.arange(n), a_ix)
+    b_ix = g.permutation(b_ix) if g.random() < 0.5 else b_ix
+    a = pg.select_taxa(a_ix); b = pg.select_taxa(b_ix); ctx.hook("select_taxa calls", 2)
+    ua = ub = None
+    try:
+        uns = bool(g.random() < 0.5)
+        model.usl(a, unscale=uns); model.lsl(a, unscale=uns); a.afreq(); ctx.hook("usl/lsl calls", 2)
+        ua = genotyper.genotype(a); ub = genotyper.genotype(b)
+        model.usl(ua, unscale=uns); model.lsl(ua, unscale=uns); ua.afreq(); ctx.hook("usl/lsl calls", 2)
+    except Exception as e:
+        ctx.raised("reads of the first cohort", e); ua = None
+    desc, fn, name = attach_call(g, len(a_ix), len(b_ix))
+    twin["ug"] = ua
+    apply_inplace(ctx, a, twin, fn, (b, ub))
+    ctx.hook("in-place append_taxa / append / incorp_taxa / incorp calls on a population object whose limits had been read")
+    ctx.sumnote("in-place addition: " + desc["call"])
+    op = dict({"op": name + " in place (two cohorts of the same population re-united)", "first_cohort": a_ix.tolist(),
+               "second_cohort": b_ix.tolist()}, **desc)
+    return a, op, O.defining_class(a, name) + "." + name
+
+
+def do_reorder(ctx, g, pg, twin):
+    n = pg.ntaxa
+    call = ["reorder_taxa", "reorder_taxa", "sort_taxa", "group_taxa", "group_taxa + ungroup_taxa"][int(g.integers(5))]
+    perm = g.permutation(n)
+
+    def fn(x):
+        if call == "reorder_taxa":
+            x.reorder_taxa(perm)
+        elif call == "sort_taxa":
+            x.sort_taxa()
+        else:
+            x.group_taxa()
+            if call.endswith("ungroup_taxa"):
+                x.ungroup_taxa()
+    name = call.split(" ")[0]
+    site = O.defining_class(pg, name) + "." + name
+    apply_inplace(ctx, pg, twin, fn)
+    ctx.hook("in-place reorder_taxa / sort_taxa / group_taxa calls on a population object whose limits had been read")
+    return pg, {"op": call + " in place"}, site
+
+
+def do_copy(ctx, g, pg, twin):
+    import copy
+    call = ["copy()", "deepcopy()", "copy.copy", "copy.deepcopy"][int(g.integers(4))]
+    fn = {"copy()": lambda x: x.copy(), "deepcopy()": lambda x: x.deepcopy(), "copy.copy": copy.copy, "copy.deepcopy": copy.deepcopy}[call]
+    new = fn(pg)
+    if twin.get("ug") is not None:
+        try:
+            twin["ug"] = fn(twin["ug"])
+        except Exception as e:
+            ctx.raised("copy of the unphased twin object", e); twin["ug"] = None
+    name = "__deepcopy__" if "deep" in call else "__copy__"
+    ctx.hook("generations read from a copy()/deepcopy() of a population object")
+    return new, {"op": call}, O.defining_class(pg, name) + "." + name
+
+
 # ---------------------------------------------------------------- one history
 def case_history(ctx, c, family="hist"):
     from pybrops.breed.prot.gt.DenseUnphasedGenotyping import DenseUnphasedGenotyping
@@ -615,6 +835,9 @@ def case_history(ctx, c, family="hist"):
     coords = [c, family]
     chain = family == "chain"
     huge = family == "huge"
+    pool = family == "pool"
+    twin = {"ug": None} if pool else None
+    gr = ctx.rng(family, c, "reuse")     # own stream: reads that consult one breeding value matrix object several times
     ploidy = int(g.choice([1, 2, 4, 4, 1, 3])) if chain else 2
     fcls = ["random", "random", "skewed", "skewed", "skewed", "inbred", "inbred", "singletons", "singletons", "complementary", "fixed"][int(g.integers(11))]
     if chain:
@@ -625,6 +848,9 @@ def case_history(ctx, c, family="hist"):
     wide = (not chain) and (not huge) and g.random() < 0.1   # sizes around the limits of 8- and 16-bit integers (index * nvrnt, n * nvrnt)
     if wide:
         n0 = int(g.choice([100, 127, 128, 130, 200, 256, 257, 330, 330])); m = int(g.choice([100, 113, 127, 128, 129, 200, 255, 256, 257, 330, 330]))
+    if pool:   # small candidate pools, half of them made of homozygous lines (one line alone is fixed at every locus)
+        wide = False; n0 = int(g.integers(2, 25)); m = int(g.integers(2, 31))
+        fcls = ["inbred", "inbred", "inbred", "inbred", "random", "skewed", "complementary", "singletons"][int(g.integers(8))]
     ntrait = int(g.choice([1, 2, 2, 3, 3]))
     carriers = None
     if huge:   # 50 000 - 200 000 founders, few markers, alleles one or two copies away from loss / fixation
@@ -642,12 +868,14 @@ def case_history(ctx, c, family="hist"):
     ctx.hook("histories with model: " + mkind.split(",")[0])
     genotyper = DenseUnphasedGenotyping()
     ngen = int(g.integers(3, 26)) if g.random() < 0.3 else int(g.integers(3, 11))
-    tail = (not chain) and g.random() < 0.35
+    tail = (not chain) and g.random() < 0.35 and not pool
     history = [{"op": "founders", "class": fcls, "ntaxa": n0, "nvrnt": m, "ploidy": ploidy, "variant_axis": "ungrouped, interleaved" if ungrouped else "grouped"}]
     icls = ("selection-only chain, ploidy %d" % ploidy) if chain else ("very large founder population" if huge else "mating history")
+    if pool:
+        icls = "pool managed in place"
     mon = O.HistoryMonitor(ctx, u, icls, coords, history, model, mkind=mkind)
     protos = {}
-    G, gref = read_generation(ctx, mon, model, has_unscale, genotyper, pg, 0, history[0], "founders", g)
+    G, gref = read_generation(ctx, mon, model, has_unscale, genotyper, pg, 0, history[0], "founders", g, twin=twin, gr=gr)
     t = 0
     plan = []
     if huge:
@@ -656,6 +884,10 @@ def case_history(ctx, c, family="hist"):
         plan.append("subset" if chain else ["mate", "mate", "mate", "mate", "subset", "subset", "merge"][int(g.integers(7))])
     if (not chain) and (not huge) and g.random() < 0.03:    # one very large generation (block-wise code paths, > 4096 rows)
         plan.insert(int(g.integers(0, len(plan) + 1)), "big")
+    if pool:
+        plan = [POOL_KINDS[int(g.integers(len(POOL_KINDS)))] for _ in range(int(g.integers(3, 10)))]
+        if g.random() < 0.4:
+            plan.insert(0, "dhpool")
     if tail:
         plan += ["tail-dh", "tail-self", "tail-cross", "tail-subset", "tail-self"][: int(g.integers(2, 6))]
     nfixed_run = 0
@@ -664,14 +896,54 @@ def case_history(ctx, c, family="hist"):
         nfixed_run = nfixed_run + 1 if G.allfixed else 0
         if nfixed_run > 4:     # nothing can change any more; a few re-sized fixed generations are enough
             break
+        if pool and n < 2 and kind in ("cull", "regroup", "delete"):
+            kind = "reread"
+        wasfixed = G.allfixed
+        icls_k = None
         try:
-            if kind == "mate":
+            if pool and kind in INPLACE_KINDS + ("copy", "reread", "delete", "dhpool"):
+                icls_k = O.INPLACE_ICLS if kind in INPLACE_KINDS else None
+                if kind == "cull":
+                    new, op, site = do_cull(ctx, g, pg, twin, gref)
+                elif kind == "grow":
+                    new, op, site, inprog = do_grow(ctx, g, protos, genotyper, mon, model, pg, twin, gref)
+                    icls_k = None if inprog else icls_k      # (an allele that came back with the progeny: the mating step's finding)
+                elif kind == "regroup":
+                    new, op, site = do_regroup(ctx, g, genotyper, model, pg, twin, gref)
+                elif kind == "reorder":
+                    new, op, site = do_reorder(ctx, g, pg, twin)
+                elif kind == "copy":
+                    new, op, site = do_copy(ctx, g, pg, twin); icls_k = O.COPY_ICLS
+                elif kind == "reread":
+                    new, op, site = pg, {"op": "none (the same objects are read again)"}, "no operation"; icls_k = O.REREAD_ICLS
+                    ctx.hook("generations read again from unchanged objects")
+                elif kind == "delete":   # selection through the complement: a fresh object, the twin derived the same way
+                    keep = select(g, gref, pick_size(g, 2, cap=n - 1), ["best", "worst", "random"][int(g.integers(3))])
+                    drop = numpy.setdiff1d(numpy.arange(n), keep)
+                    obj, form = drop_form(g, drop, n)
+                    new = pg.delete_taxa(obj)
+                    if twin.get("ug") is not None:
+                        try:
+                            twin["ug"] = twin["ug"].delete_taxa(obj)
+                        except Exception as e:
+                            ctx.raised("operation on the unphased twin object", e); twin["ug"] = None
+                    op = {"op": "delete_taxa", "kept": numpy.sort(keep).tolist(), "argument_form": form}
+                    site = O.defining_class(pg, "delete_taxa") + ".delete_taxa"
+                else:   # a pool of doubled haploids
+                    new, op, site = do_mate(ctx, g, protos, pg, gref, pick_size(g, cap=60), force=PROTOS[int(g.choice([2, 2, 4, 6]))])
+                    twin["ug"] = None
+            elif kind == "mate":
                 new, op, site = do_mate(ctx, g, protos, pg, gref,
                                         int(g.choice([128, 129, 200, 255, 256, 257, 330, 330])) if wide and g.random() < 0.6 else pick_size(g))
             elif kind == "subset":
                 if n == 1 and chain:
                     break
                 new, op, site = do_subset(ctx, g, pg, gref, pick_size(g, ploidy, cap=n))
+                if pool and twin.get("ug") is not None:   # the twin is derived by the same selection (or genotyped afresh)
+                    try:
+                        twin["ug"] = twin["ug"].select_taxa(numpy.asarray(op["indices"], dtype="int64")) if g.random() < 0.6 else None
+                    except Exception as e:
+                        ctx.raised("operation on the unphased twin object", e); twin["ug"] = None
             elif kind == "merge":   # overlapping generations: survivors + their progeny
                 prog, op1, site1 = do_mate(ctx, g, protos, pg, gref, pick_size(g, cap=150))
                 keep = select(g, gref, int(g.integers(1, n + 1)), ["best", "worst", "random"][int(g.integers(3))])
@@ -704,7 +976,11 @@ def case_history(ctx, c, family="hist"):
                 new, op, site = do_subset(ctx, g, pg, gref, pick_size(g, 2, cap=n))
         except Exception as e:   # the property constrains results; a raising operation leaves the history where it was
             ctx.raised("history step %s" % kind, e)
+            if pool and kind in INPLACE_KINDS:   # (... unless it works on the object itself: its state is unknown now)
+                break
             continue
+        if pool and kind == "mate":
+            twin["ug"] = None
         icls_t = None
         narrow = bool(op.get("index_times_nvrnt_exceeds_dtype") or (op.get("mating") or {}).get("index_times_nvrnt_exceeds_dtype"))
         if op.get("op") == "mate" and g.random() < 0.85:
@@ -727,7 +1003,11 @@ def case_history(ctx, c, family="hist"):
         pg = new
         if narrow:
             icls_t = NARROW_ICLS
-        G, gref = read_generation(ctx, mon, model, has_unscale, genotyper, pg, t, op, site, g, icls=icls_t)
+        if icls_k is not None:
+            icls_t = icls_k
+        G, gref = read_generation(ctx, mon, model, has_unscale, genotyper, pg, t, op, site, g, icls=icls_t, twin=twin, gr=gr)
+        if pool and kind == "cull" and G.allfixed and not wasfixed:
+            ctx.hook("populations fixed at all loci reached by an in-place cull")
     seg = bool(numpy.any(mon.gens[0].present & ~mon.gens[0].fixed1)) or bool(numpy.any(u != 0))
     ctx.case("%s:%s" % (family, fcls if not chain else "ploidy %d/%s" % (ploidy, fcls)), mat0, u, beta, repr(history[1:]), trivial=(t == 0 or not seg))
     ctx.sumnote("generations observed", t + 1)
@@ -741,7 +1021,8 @@ def case_history(ctx, c, family="hist"):
 
 FAMILIES = {"hist": (lambda ctx, c: case_history(ctx, c, "hist"), 1800, 16 * 6000),
             "chain": (lambda ctx, c: case_history(ctx, c, "chain"), 700, 16 * 2000),
-            "huge": (lambda ctx, c: case_history(ctx, c, "huge"), 12, 16 * 25)}
+            "huge": (lambda ctx, c: case_history(ctx, c, "huge"), 12, 16 * 25),
+            "pool": (lambda ctx, c: case_history(ctx, c, "pool"), 700, 16 * 2500)}
 
 
 def run_shard(ctx):
